@@ -9,8 +9,8 @@ Model of the framework-generated error responses (C20):
 * `json.dumps` of the error dict         → `dumpsObj`; `jsonParse` is the JSON reader the
                                            round-trip theorem targets (tied to `json.loads`)
 * `Ombott.default_error_handler`         → `defaultErrorHandler`
-* `Request.url` / `urlparts`             → `requestUrl` (`urljoin` result = parameter `fullpath`,
-                                           `urlquote` and `urlunsplit` concrete)
+* `Request.url` / `urlparts` / `fullpath` → `requestUrl` (`urlquote`, `urlunsplit` and `urljoin`
+                                           concrete; `urljoin`'s authority validation = parameter)
 * `Ombott._handle`, `_cast` (error branch), `wsgi` (catch-all page) → `handleErr`, `serve`
 
 Routing and the user handler are a parameter (`Outcome`): which error arises is the business of
@@ -336,9 +336,117 @@ def urlunsplit (scheme : Str) (netloc : Str) (url : Str) (query : Option Str) : 
   let url := if !scheme.isEmpty then scheme ++ ':' :: url else url
   if truthy query then url ++ '?' :: (query.getD []) else url
 
-/-- the part of the WSGI environ `Request.urlparts` reads.  `fullpath` is the value of
-`Request.fullpath` (`urljoin(script_name, path…)`, a library call taken as a parameter); it can
-raise `ValueError`. -/
+/-! #### Request.fullpath: `urljoin(script_name, path.lstrip('/'))` -/
+
+/-- `urlsplit`'s cleaning of its argument: lstrip of C0 controls and space, then tab, CR and LF
+deleted everywhere -/
+def urlClean (u : Str) : Str :=
+  (u.dropWhile Gen.urlLstripChars.contains).filter fun c => !Gen.urlRemovedChars.contains c
+
+def isAsciiAlpha (c : Char) : Bool := ('a' ≤ c && c ≤ 'z') || ('A' ≤ c && c ≤ 'Z')
+
+/-- scheme detection of `urlsplit`: `some rest` when the text starts with `scheme:` -/
+def afterScheme (u : Str) : Option Str :=
+  match splitFirst ':' u with
+  | some (c0 :: pre, rest) =>
+    if isAsciiAlpha c0 && (c0 :: pre).all Gen.schemeChars.contains then some rest else none
+  | _ => none
+
+def splitAt1 (c : Char) (u : Str) : Str × Str :=
+  match splitFirst c u with
+  | some (a, b) => (a, b)
+  | none => (u, [])
+
+/-- index of the last `/` (`str.rfind`), when there is one -/
+def rfindSlash (u : Str) : Option Nat :=
+  match findSub ['/'] u.reverse with
+  | some k => some (u.length - 1 - k)
+  | none => none
+
+/-- `_splitparams(url)`: parameters of the last path segment (called when `;` occurs) -/
+def splitParams (url : Str) : Str × Str :=
+  match rfindSlash url with
+  | some k =>
+    match splitFirst ';' (url.drop k) with
+    | some (a, b) => (url.take k ++ a, b)
+    | none => (url, [])
+  | none => splitAt1 ';' url
+
+/-- path, params, query, fragment of `urlparse` for a cleaned text without scheme and authority -/
+structure UrlParts where
+  path : Str
+  params : Str
+  query : Str
+  fragment : Str
+
+def parseRelative (u : Str) : UrlParts :=
+  let (u1, frag) := splitAt1 '#' u
+  let (u2, query) := splitAt1 '?' u1
+  let (path, params) := if u2.contains ';' then splitParams u2 else (u2, [])
+  { path := path, params := params, query := query, fragment := frag }
+
+/-- `urlunparse(('', '', path, params, query, fragment))` -/
+def unparseRelative (path params query fragment : Str) : Str :=
+  let url := if params.isEmpty then path else path ++ ';' :: params
+  let url := if query.isEmpty then url else url ++ '?' :: query
+  if fragment.isEmpty then url else url ++ '#' :: fragment
+
+/-- the `for seg in segments` loop of `urljoin`; the stack is kept reversed -/
+def resolveDots (segs : List Str) : List Str :=
+  (segs.foldl (fun acc seg =>
+    if seg == ['.', '.'] then acc.tail
+    else if seg == ['.'] then acc
+    else seg :: acc) []).reverse
+
+/-- `segments[1:-1] = filter(None, segments[1:-1])` -/
+def filterMiddle : List Str → List Str
+  | [] => []
+  | [a] => [a]
+  | a :: rest => a :: (rest.dropLast.filter fun s => !s.isEmpty) ++ rest.drop (rest.length - 1)
+
+/-- `urljoin(base, url)` for a base that starts with `/` (the script name).  Whenever an
+authority (`//…`) shows up in either text the answer is the library's (`lib`): its validation
+(IPv6 brackets, NFKC) is not modelled. -/
+def urljoinPath (base url : Str) (lib : Except Err Str) : Except Err Str :=
+  if url.isEmpty then .ok base
+  else
+    let b := urlClean base
+    let u := urlClean url
+    if b.take 2 == ['/', '/'] then lib
+    else match afterScheme u with
+      | some rest => if rest.take 2 == ['/', '/'] then lib else .ok url    -- scheme != bscheme: url as given
+      | none =>
+        if u.take 2 == ['/', '/'] then lib
+        else
+          let bp := parseRelative b
+          let p := parseRelative u
+          if p.path.isEmpty && p.params.isEmpty then
+            .ok (unparseRelative bp.path bp.params (if p.query.isEmpty then bp.query else p.query) p.fragment)
+          else
+            let parts := splitOn1 '/' bp.path
+            let baseParts := if parts.getLast? != some [] then parts.dropLast else parts
+            let segments :=
+              if p.path.take 1 == ['/'] then splitOn1 '/' p.path
+              else filterMiddle (baseParts ++ splitOn1 '/' p.path)
+            let resolved := resolveDots segments
+            let resolved :=
+              if segments.getLast? == some ['.'] || segments.getLast? == some ['.', '.'] then resolved ++ [[]]
+              else resolved
+            let joined := List.intercalate ['/'] resolved
+            .ok (unparseRelative (if joined.isEmpty then ['/'] else joined) p.params p.query p.fragment)
+
+/-- `Request.script_name` (default config: `X-Script-Name` not consulted) -/
+def scriptNameOf (sn : Option Str) : Str :=
+  if truthy sn then '/' :: stripBy (· == '/') (sn.getD []) ++ ['/'] else ['/']
+
+/-- `Request.fullpath` for the default `app_name_header`: `path = '/' + PATH_INFO.lstrip('/')`,
+`urljoin(script_name, path[1:].lstrip('/'))` -/
+def fullpathOf (sn : Option Str) (pathInfo : Str) (lib : Except Err Str) : Except Err Str :=
+  urljoinPath (scriptNameOf sn) (pathInfo.dropWhile (· == '/')) lib
+
+/-- the part of the WSGI environ `Request.urlparts` reads.  `joinLib` is what the library's
+`urljoin` answers for this request (value or `ValueError`); the model consults it only when an
+authority part has to be validated (see `urljoinPath`). -/
 structure UrlEnv where
   fwdProto : Option Str     -- HTTP_X_FORWARDED_PROTO
   urlScheme : Option Str    -- wsgi.url_scheme   (default 'http')
@@ -347,10 +455,12 @@ structure UrlEnv where
   serverName : Option Str   -- SERVER_NAME       (default '127.0.0.1')
   serverPort : Option Str   -- SERVER_PORT
   query : Option Str        -- QUERY_STRING
-  fullpath : Except Err Str
+  scriptName : Option Str   -- SCRIPT_NAME
+  joinLib : Except Err Str
 
-/-- `Request.url` = `self.urlparts.geturl()` -/
-def requestUrl (env : UrlEnv) : Except Err Str :=
+/-- `Request.url` = `self.urlparts.geturl()`; `pathInfo` is `environ['PATH_INFO']` as `_handle`
+left it -/
+def requestUrl (env : UrlEnv) (pathInfo : Str) : Except Err Str :=
   let http := (orElse env.fwdProto (some (env.urlScheme.getD "http".toList))).getD []
   let host0 := orElse env.fwdHost env.host
   let host :=
@@ -360,7 +470,7 @@ def requestUrl (env : UrlEnv) : Except Err Str :=
       let defaultPort := if http == "http".toList then "80".toList else "443".toList
       if truthy env.serverPort && env.serverPort != some defaultPort then h ++ ':' :: env.serverPort.getD []
       else h
-  match env.fullpath with
+  match fullpathOf env.scriptName pathInfo env.joinLib with
   | .error e => .error e
   | .ok fp => .ok (urlunsplit http host (urlquote fp) env.query)
 
@@ -432,6 +542,12 @@ def jsonType : Str := "application/json".toList
 def isJsonRequested (accept : Option Str) : Bool :=
   truthy accept && "application/json".toList.isPrefixOf (accept.getD [])
 
+/-- the path the last-resort page shows: `environ['PATH_INFO']`, re-decoded when that worked -/
+def shownPath (rawPath : Bytes) : Str :=
+  match utf8Decode rawPath with
+  | some p => p
+  | none => rawPath.map fun b => Char.ofNat b.toNat
+
 /-- `Ombott.default_error_handler(res)`: content type and text, or the exception it raises -/
 def defaultErrorHandler (pr : Char → Bool) (lines : List Str) (debug : Bool) (req : Req)
     (res : ErrResp) : Except FErr (Str × Str) :=
@@ -440,15 +556,9 @@ def defaultErrorHandler (pr : Char → Bool) (lines : List Str) (debug : Bool) (
                              ("exception".toList, some (strOpt res.exception)),
                              ("traceback".toList, res.traceback)])
   else
-    match requestUrl req.env with
+    match requestUrl req.env (shownPath req.rawPath) with
     | .error e => .error (.py e)
     | .ok url => (render pr lines res url debug).map fun page => (htmlType, page)
-
-/-- the path the last-resort page shows: `environ['PATH_INFO']`, re-decoded when that worked -/
-def shownPath (rawPath : Bytes) : Str :=
-  match utf8Decode rawPath with
-  | some p => p
-  | none => rawPath.map fun b => Char.ofNat b.toNat
 
 def criticalPrefix : Str := "<h1>Critical error while processing request: ".toList
 def criticalSuffix : Str := "</h1>".toList
